@@ -134,6 +134,12 @@ def learned_events(tf, tfl, ctx, rng, n):
     logits = rng.uniform(-big, big, size=(units, nk - 1)).astype(np.float32)
     if j % 4 == 0:
       logits = rng.uniform(-3, 3, size=(units, nk - 1)).astype(np.float32)
+    if j % 5 == 1:
+      # large common offset, small spread: the softmax is perfectly well conditioned (it is shift invariant), so
+      # the keypoints must be finite, strictly ordered and the function must pass through them - an
+      # implementation that exponentiates the raw logits overflows (>= 89) or underflows (<= -104) here
+      off = rng.choice([-1000.0, -150.0, -104.0, 89.0, 95.0, 150.0, 1000.0], size=(units, 1))
+      logits = (off + rng.uniform(-3, 3, size=(units, nk - 1))).astype(np.float32)
     layer.interpolation_logits.assign(logits)
     K = (rng.integers(-32, 33, size=(nk, units)) / 16.0).astype(np.float32)
     layer.kernel.assign(K)
@@ -144,11 +150,13 @@ def learned_events(tf, tfl, ctx, rng, n):
     # float32 softmax underflow: with a logit spread above ~80 some lengths are exactly 0 (documented limit)
     spread = float((logits.max(axis=1) - logits.min(axis=1)).max())
     for u in range(units):
+      spread = float(logits[u].max() - logits[u].min())
       vals = list(ki[:, u]) + list(ko[:, u]) + list(fo[:, u])
       call = {"kp": [float(v) for v in kp], "logits": [float(v) for v in logits[u]], "mode": "learned_interior"}
       if not common.all_finite(vals):
         # 0/0 exactly at keypoints that coincide in float32: the documented floating-point limit, recorded only
-        degenerate = bool(np.any(np.diff(ki[:, u]) == 0))
+        spread_u = float(logits[u].max() - logits[u].min())
+        degenerate = bool(np.any(np.diff(ki[:, u]) == 0)) and spread_u > 80
         if degenerate:
           ctx.extra["float32_degenerate_keypoints"] = ctx.extra.get("float32_degenerate_keypoints", 0) + 1
         else:
